@@ -227,8 +227,17 @@ def run(tier: str) -> int:
 def keepers(only=None) -> int:
     """Apply each behaviour-PRESERVING change (keepers/<id>/patch.diff) to a scratch worktree and run the checks
     recorded in its meta.json: none may raise an alarm."""
+    from concurrent.futures import ThreadPoolExecutor  # noqa: PLC0415
+
+    metas = sorted(glob.glob(os.path.join(core.VERIF, "keepers", "*", "meta.json")))
+    jobs = int(os.environ.get("VERIF_SELFTEST_JOBS", "3") or 3)
+    with ThreadPoolExecutor(max_workers=jobs) as pool:
+        return sum(pool.map(lambda mp: _keeper_one(mp, only), metas))
+
+
+def _keeper_one(mp, only) -> int:
     failures = 0
-    for mp in sorted(glob.glob(os.path.join(core.VERIF, "keepers", "*", "meta.json"))):
+    for mp in [mp]:
         d = os.path.dirname(mp)
         meta = json.load(open(mp))
         kid = os.path.basename(d)
